@@ -319,6 +319,40 @@ fn directed_load_races_remove(rt: &tokio::runtime::Runtime, dynamic: bool) -> u6
     2
 }
 
+/// directed: a spilled set (more than 1025 durable members, cold cache) with MANY staged removes and few or no staged inserts:
+/// more removed elements among the first 1025 scanned than the rest of the scan plus the staged inserts can make up for
+fn directed_cold_spill_many_removes(rt: &tokio::runtime::Runtime, n: u32, removes: u32, adds: u32) -> u64 {
+    let db = MockDb::default();
+    {
+        let engine = DbBacked::new(db.clone(), Configuration::builder().cache_capacity(8).serialization_workers(2).build());
+        let manager = engine.new_write_manager();
+        let sets = engine.new_key_of_set_map::<SetCol, Set>();
+        let mut b0 = manager.new_write_batch();
+        for e in 0..n { rt.block_on(sets.insert(5, e, &mut b0)); }
+        manager.submit_write_batch(b0);
+        drop(sets); drop(manager);
+    }
+    let engine = DbBacked::new(db.clone(), Configuration::builder().cache_capacity(8).serialization_workers(2).build());
+    let manager = engine.new_write_manager();
+    let sets = engine.new_key_of_set_map::<SetCol, Set>();
+    let mut want: BTreeSet<u32> = (0..n).collect();
+    let mut b1 = manager.new_write_batch();
+    for i in 0..removes { let e = (i * 37) % n; rt.block_on(sets.remove(&5, &e, &mut b1)); want.remove(&e); }
+    for i in 0..adds { let e = 9_000_000 + i; rt.block_on(sets.insert(5, e, &mut b1)); want.insert(e); }
+    let got: BTreeSet<u32> = rt.block_on(sets.get(&5)).collect();
+    eprintln!("LAST-HISTORY directed cold spill, many removes n={n} removes={removes} adds={adds}");
+    manager.submit_write_batch(b1);
+    drop(sets); drop(manager);
+    if got != want {
+        let missing: Vec<_> = want.difference(&got).take(6).collect();
+        let extra: Vec<_> = got.difference(&want).take(6).collect();
+        report_found("key-to-set map read does not reflect the operations issued before it",
+            &format!("{n} members durable in the store; fresh map (cold cache); {removes} staged removes (elements (i*37) mod n) and {adds} staged inserts in one uncommitted batch; first get(5)"),
+            &format!("{} elements; {} missing, e.g. {missing:?}; stale/extra {extra:?}", got.len(), want.difference(&got).count()), &format!("{} elements", want.len()));
+    }
+    1
+}
+
 fn main() {
     let seed = seed_from_args();
     let mut rng = Rng(seed.wrapping_mul(0x9E3779B97F4A7C15) ^ 0xC09);
@@ -332,6 +366,9 @@ fn main() {
     for members in [3u32, 1023, 1024, 1025, 1026, 1100, 2100] {
         n += directed_cold_spill(&rt, members, false);
         n += directed_cold_spill(&rt, members, true);
+    }
+    for (members, removes, adds) in [(1026u32, 10u32, 0u32), (1030, 40, 2), (1100, 200, 0), (2100, 1500, 3), (1025, 5, 0)] {
+        n += directed_cold_spill_many_removes(&rt, members, removes, adds);
     }
     for cap in [1u64, 2, 4, 64] {
         for _ in 0..6 { n += history(&rt, &mut rng, cap, false, 400, "random"); }
